@@ -222,4 +222,22 @@ theorem C08_no_bom (c : HdrCfg) (replace skip : Bool) (info : Extracted) (t : Te
       simpa using h
     simp [annotateText, this]
 
+/-! ### non-vacuity: the hypotheses are satisfiable, the relation is not trivial
+
+(That `findAndReplaceHeader … = .ok out` is satisfiable is shown on every run by the correspondence streams —
+thousands of distinct written results; the kernel cannot evaluate the regular-expression reader the header guard
+calls, so no closed example is stated here.) -/
+
+example : NoExoticBreaks "#!/bin/sh\n# SPDX-License-Identifier: MIT\n\tx = 1\n".toList := by decide
+example : ¬ NoExoticBreaks "a\x0cb".toList := by decide
+example : NoCR "a\nb\n".toList ∧ '\n' ∈ "a\nb\n".toList := by decide
+example : toCRLF "a\nb\n".toList = "a\r\nb\r\n".toList ∧ toCR "a\nb\n".toList = "a\rb\r".toList := by decide
+example : placeHeader "# h".toList "#!/bin/sh  \n".toList "x = 1\n".toList false = "#!/bin/sh\n\n# h\n\nx = 1\n".toList := by decide
+example : placeHeader "# h".toList " \n".toList "\nx = 1".toList true = "# h\n\nx = 1".toList := by decide
+example : SpliceAt "# h".toList "#!/bin/sh  \n".toList "x = 1\n".toList "#!/bin/sh\n\n# h\n\nx = 1\n".toList :=
+  placeHeader_spliceAt "# h".toList "#!/bin/sh  \n".toList "x = 1\n".toList false
+/-- the relation excludes something: text below the header cannot lose a character -/
+example : ¬ Below "x = 1\n".toList "x = 1".toList := by
+  intro h; cases h
+
 end C08
